@@ -18,6 +18,18 @@ import cert
 from cert import Const, Instance, atoms_instance, lift
 
 TWO = Fraction(2)
+KNOWN_B4 = os.path.join(VERIF, "known_findings_B4.json")
+
+
+def load_known_b4(rep):
+    """known_findings_B4.json (same entry format as known_findings.json); idempotent"""
+    import json
+    if not hasattr(rep, "known") or not os.path.exists(KNOWN_B4):
+        return
+    with open(KNOWN_B4) as f:
+        d = json.load(f)
+    have = {k.get("key") for k in rep.known}
+    rep.known.extend(k for k in d.get("findings", []) if k.get("property") == rep.pid and k.get("key") not in have)
 
 
 # ----------------------------------------------------------------------------------------- exact endpoint helpers
@@ -396,7 +408,15 @@ def witness_instance(cid, ctx, fn, a, b, lo, hi, meta, extra=None):
     t = fn_term(fn, Const(x0), extra)
     atoms = [(Const(a), "<=", Const(x0)), (Const(x0), "<=", Const(b))]
     atoms.append((Const(fin(hi)), "<", t) if side == "hi" else (t, "<", Const(fin(lo))))
-    return atoms_instance(cid + "_wit", atoms, [], meta=dict(meta, kind="witness", x0=dy_pair(x0), side=side), params={"margin": 40})
+    exc = excess_of(ctx, f_num(ctx, fn, x0, extra), fin(hi) if side == "hi" else fin(lo), meta["p"])
+    return atoms_instance(cid + "_wit", atoms, [], meta=dict(meta, kind="witness", x0=dy_pair(x0), side=side, excess_class=exc), params={"margin": 40})
+
+
+def excess_of(ctx, v, bound, prec):
+    """untrusted size class of a containment failure (only used to match known findings narrowly)"""
+    bnd = ctx.mpf(bound.numerator) / bound.denominator
+    rel = abs(v - bnd) / max(abs(v), ctx.mpf(2) ** -100000)
+    return "below_1ulp" if rel < ctx.mpf(2) ** (1 - prec) else "large"
 
 
 # ----------------------------------------------------------------------------------------- driver
@@ -452,9 +472,10 @@ def run_elementary(rep, tier_, rng, budget=None):
     """-> dict of coverage counters (to be merged by props/c14.py); violations are reported through rep.violation with
     replay dicts containing {"fn": "iv.<f>", "regime": ...}."""
     from mpmath import iv
+    load_known_b4(rep)
     t0 = time.time()
-    budget = budget or (75 if tier_ == "quick" else 600)
-    n = 80 if tier_ == "quick" else 900
+    budget = budget or (100 if tier_ == "quick" else 700)
+    n = 64 if tier_ == "quick" else 900
     precs = [24, 53, 100] if tier_ == "quick" else [24, 53, 100, 200, 300]
     ctx = hint_ctx()
     calls = {}; builders = {}; direct = []; point_insts = []; wit = {}
@@ -537,7 +558,8 @@ def run_elementary(rep, tier_, rng, budget=None):
             stats["contain_fail"] += 1; note(cid, "fail")
             rep.violation("C14 %s: certified containment failure: a member point is mapped outside the result (regime %s, prec %d)"
                           % (call["fn"], call["regime"], call["prec"]),
-                          dict(call, witness=wv.get("x0"), side=wv.get("side"), coq_replay=cert.replay_text(res_pre, cid + "_wit"), clause="containment"))
+                          dict(call, witness=wv.get("x0"), witness_y=wv.get("y0"), side=wv.get("side"), excess_class=wv.get("excess_class"),
+                               coq_replay=cert.replay_text(res_pre, cid + "_wit"), clause="containment"))
             continue
         ladder_calls[cid] = call
     status, results = certify_ladder(ladder_calls, builders, "C14E_%s" % tier_, max(10, budget - (time.time() - t0)))
@@ -617,8 +639,9 @@ def witness_two(cid, ctx, fn, call, a, b, lo, hi, meta):
             elif flo is not None and v < ctx.mpf(flo.numerator) / flo.denominator: side = "lo"
             if side:
                 atoms = [(Const(fhi), "<", t)] if side == "hi" else [(t, "<", Const(flo))]
-                return atoms_instance(cid + "_wit", atoms, [], meta=dict(meta, kind="witness", x0=dy_pair(x0), y0=dy_pair(y0), side=side),
-                                      params={"margin": 40})
+                exc = excess_of(ctx, v, fhi if side == "hi" else flo, meta["p"])
+                return atoms_instance(cid + "_wit", atoms, [], meta=dict(meta, kind="witness", x0=dy_pair(x0), y0=dy_pair(y0), side=side,
+                                                                         excess_class=exc), params={"margin": 40})
     return None
 
 
